@@ -71,6 +71,8 @@ def run(case, j):
     j.tag(f"space:{space}", f"data:{case['kind']}", f"reg:{reg['kind']}", "y1d" if oned else "y2d")
     if not pc.x_guard(X):
         raise Skip("XtX-eigenvalue-near-tol-cut")
+    if not pc.reg_guard(reg, X):
+        raise Skip("regression-ill-conditioned(eps x cond above the tolerances)")
     Yh, W = pc.oracle_yhat(reg, X, Y)
     w = pc.spectrum(pc.ktilde(a, X, Yh))
     rank = int((w > 1e-10 * w[0]).sum())
